@@ -185,6 +185,17 @@ def gen_hostile(ch, spec):
         ops.insert(pos, op)
     for op in ops:
         op["dt"] = ch.choice("wl", [0.0, 0.0, 0.005, 0.05, 0.3, 1.5])
+    if cfg.get("victim_sends"):
+        # forged acknowledgements placed where they matter: right behind a burst of the victim's own, while that
+        # data is still in flight (the genuine acknowledgements are slow)
+        i = 0
+        while i < len(ops):
+            if ops[i]["op"] == "victim_burst" and ch.chance("wl", 0.6):
+                ops.insert(i + 1, {"op": "inject", "cls": ch.choice("wl", ["sack-strikes", "sack-strikes", "sack-weird-gaps",
+                                                                       "sack-lying", "sack-old", "forward-tsn-lying"]),
+                                   "k": ch.randint("wl", 0, 1 << 30, 1), "dt": ch.choice("wl", [0.0, 0.005, 0.05])})
+                i += 1
+            i += 1
     if ch.chance("wl", 0.4):
         cfg["handshake_injections"] = [[ch.choice("wl", RAW), ch.randint("wl", 0, 1 << 30, 1), ch.choice("wl", [0.0, 0.011, 0.03, 0.06, 0.1])]
                                        for _ in range(ch.choice("wl", [1, 2, 4]))]
